@@ -454,6 +454,17 @@ class Inliner:
         self._pending_recv = None
         call = None
         kind = None
+        # `x += helper(..)` with a plain local x: `t = helper(..); x += t`
+        if isinstance(st, ast.AugAssign) and isinstance(st.value, ast.Call) and isinstance(st.target, ast.Name) and depth <= 3:
+            tgt_, _ = self._target(fi, st.value)
+            if tgt_ is not None:
+                self.counter += 1
+                tmp = f"__inl{self.counter}_aug"
+                first = ast.copy_location(ast.Assign(targets=[ast.Name(id=tmp, ctx=ast.Store())], value=st.value), st)
+                rep_ = self.expand_stmt(fi, first, depth + 1)
+                if rep_ is not None:
+                    second = ast.copy_location(ast.AugAssign(target=st.target, op=st.op, value=ast.Name(id=tmp, ctx=ast.Load())), st)
+                    return rep_ + [ast.fix_missing_locations(second)]
         if isinstance(st, ast.Expr) and isinstance(st.value, ast.Call):
             call, kind = st.value, "expr"
         elif isinstance(st, ast.Assign) and isinstance(st.value, ast.Call):
